@@ -54,3 +54,51 @@ def rules(t):
     if not ge: r.bad("horizon", None, "no sent-packet horizon")
     out.append(r)
     return out
+
+
+def find_index_calls(o, out=None):
+    """all (receiver text, index origin) of Vec::index / index_mut calls inside origin expression o"""
+    if out is None: out = []
+    if isinstance(o, tuple):
+        if o and o[0] == "call" and method_of(o[1]) in ("index", "index_mut") and len(o[2]) == 2:
+            out.append((fmt(o[2][0]), o[2][1]))
+        for x in o:
+            if isinstance(x, tuple): find_index_calls(x, out)
+    return out
+
+
+def index_agreement(t):
+    """C15.d: the slice whose `acked` flag and `last_sent` timer are tested is the slice that is built, sent and re-timed (one index origin)"""
+    f = t.fn("SendChannelReliable::get_packets_to_send")
+    r = RuleResult("C15.d", "slice resend: the index tested in acked[i] / last_sent[i] is the index sliced, emitted as slice_index and re-timed in last_sent[i]", floor=4)
+    uses = {}   # role -> list of index origins
+    for br in t.branches(f):
+        if br["kind"] == "bool":
+            for recv, idx in find_index_calls(br["raw"]):
+                if recv.endswith("Sliced.acked"): uses.setdefault("acked-test", []).append((idx, br["bb"]))
+    for c in t.calls(r"Vec.*::index$", f):
+        if fmt(t.arg(c, 0)).endswith("Sliced.last_sent"): uses.setdefault("timer-test", []).append((t.arg(c, 1), c.bb))
+    for s in t.stores_like(r"index_mut\(.*Sliced\.last_sent, ", f):
+        for recv, idx in find_index_calls(t.place(s)): uses.setdefault("timer-refresh", []).append((idx, s.bb))
+    for s in t.aggrs("renet::packet::Slice", None, f):
+        uses.setdefault("emitted-index", []).append((t.field_of_aggr(s, "slice_index"), s.bb))
+    for c in t.calls(r"Bytes::slice", f):
+        rg = strip(t.arg(c, 1))
+        if isinstance(rg, tuple) and rg[0] == "aggr":
+            st = strip(rg[3][0])   # (k MulWithOverflow SLICE_SIZE).0
+            if isinstance(st, tuple) and st[0] == "field" and isinstance(strip(st[1]), tuple) and strip(st[1])[0] == "bin": uses.setdefault("slice-start", []).append((strip(st[1])[2], c.bb))
+    ref = uses.get("emitted-index", [])
+    for role in ("acked-test", "timer-test", "timer-refresh", "emitted-index", "slice-start"):
+        for idx, bb in uses.get(role, []):
+            r.site(Site(f, bb, 0, f.blocks[bb]["term"]), f"{role}: {fmt(idx)[-70:]}")
+            if ref and not same(idx, ref[0][0]): r.bad(f"index|{role}", Site(f, bb, 0, f.blocks[bb]["term"]), f"{role} uses index {fmt(idx)[-80:]} but the emitted slice_index is {fmt(ref[0][0])[-80:]}")
+        if not uses.get(role): r.bad(f"missing|{role}", None, f"no {role} site found for sliced resend")
+    return r
+
+_rules_c15 = rules
+def rules(t):
+    import rules.shared as shared
+    out = _rules_c15(t)
+    out.append(index_agreement(t))
+    out.append(shared.ack_once(t, "C15.e"))
+    return out
